@@ -44,6 +44,20 @@ class World:
         self.counters = {"blocks_real_route": 0, "blocks_ref_route": 0, "tx_real_signed": 0, "tx_ref_signed": 0,
                          "nonce_tries": 0}
 
+    def fork(self):
+        """an independent copy of this world (the real state is immutable and shared; the reference store is copied)"""
+        import copy
+        w = copy.copy(self)
+        c = copy.copy(self.chain)
+        c.blocks, c.order = dict(self.chain.blocks), list(self.chain.order)
+        c._ledger, c._idx = dict(self.chain._ledger), dict(self.chain._idx)
+        w.chain = c
+        w.real = dict(self.real)
+        w.pending = list(self.pending)
+        w.refusals = []
+        w.counters = dict(self.counters)
+        return w
+
     # ------------------------------------------------------------------ ledger helpers
     def ledger(self, bid):
         return self.chain.ledger_at(bid)
